@@ -9,7 +9,7 @@ func init() {
 }
 
 // VerifC20: args = [level, result type ("bool" | "num"), options (letters: v variables,
-// c conditions, t TryEval/DNE variables)]. (*rand.Rand).Intn is an arbitrary value in
+// c conditions, t TryEval/DNE variables), optionally the classes of variables supplied]. (*rand.Rand).Intn is an arbitrary value in
 // range, so one symbolic run covers every seed. Variables carry arbitrary int64 / bool
 // values, so at level 1 the operands of the generated operator range over every possible
 // child result (any int64, any bool, DNE): the code that computes Res from the children's
@@ -30,21 +30,45 @@ func VerifC20(args []string) {
 		}
 		return false
 	}
-	universe, _ := refRead("(tuple b0 b1 i0 i1 i8 i9)")
+	// which classes of variables the caller supplies: n numbers, b booleans, d DNE variables
+	// (only together with the TryEval option), s a string variable (the generator has no use for it)
+	varset := "nbd"
+	if len(args) > 3 {
+		varset = args[3]
+	}
+	gives := func(c byte) bool {
+		for i := 0; i < len(varset); i++ {
+			if varset[i] == c {
+				return true
+			}
+		}
+		return false
+	}
+	universe, _ := refRead("(tuple b0 b1 i0 i1 i8 i9 s0)")
 	w := newWorld(universe, "")
-	var numVars, boolVars, dneVars []GenExprResult
+	var numVars, boolVars, dneVars, otherVars []GenExprResult
 	for _, name := range w.order {
 		v := w.vars[name]
 		w.load(v)
 		v.availSet, v.avail = true, true
 		switch name {
 		case "i8", "i9":
-			v.avail = false
-			dneVars = append(dneVars, GenExprResult{Expr: name, Res: DNE})
+			if gives('d') {
+				v.avail = false
+				dneVars = append(dneVars, GenExprResult{Expr: name, Res: DNE})
+			}
 		case "b0", "b1":
-			boolVars = append(boolVars, GenExprResult{Expr: name, Res: v.val})
+			if gives('b') {
+				boolVars = append(boolVars, GenExprResult{Expr: name, Res: v.val})
+			}
+		case "s0":
+			if gives('s') {
+				otherVars = append(otherVars, GenExprResult{Expr: name, Res: v.val})
+			}
 		default:
-			numVars = append(numVars, GenExprResult{Expr: name, Res: v.val})
+			if gives('n') {
+				numVars = append(numVars, GenExprResult{Expr: name, Res: v.val})
+			}
 		}
 	}
 	// the variables go through the public GenVariables option, one call per variable so that
@@ -60,6 +84,9 @@ func VerifC20(args []string) {
 	}
 	for _, bv := range boolVars {
 		opts = append(opts, GenVariables(map[string]interface{}{bv.Expr: bv.Res}))
+	}
+	for _, ov := range otherVars {
+		opts = append(opts, GenVariables(map[string]interface{}{ov.Expr: ov.Res}))
 	}
 	if has('t') {
 		for _, dv := range dneVars {
